@@ -8,6 +8,7 @@
 //	idp2ref   IdpAuthnRequest.MakeAssertionEl (how the IdP uses xmlenc) -> refenc.Decrypt
 //	ref2sp    refenc.EncryptedAssertion around an IdP-signed assertion -> ServiceProvider.ParseXMLResponse
 //	          (how the SP uses xmlenc: nested and sibling EncryptedKey layouts)
+//	seq       several self / ref2pkg operations in a row, results compared after the last one
 //
 // refenc (internal/refenc) is the independent standard-library reference.
 package c10
@@ -37,6 +38,12 @@ import (
 
 // Case is one (direction, algorithm combination, key, plaintext) tuple.
 type Case struct {
+	// Dir "seq": Steps are run one after the other in the same process (each a self or ref2pkg
+	// case of its own); ALL results are held and compared only after the last operation, and
+	// after every call the caller-owned inputs (key, nonce, plaintext buffer, element) are
+	// overwritten: a returned plaintext must neither change later nor alias an input.
+	Steps []Case `json:"steps,omitempty"`
+
 	Dir       string `json:"dir"`                  // self | pkg2ref | ref2pkg | idp2ref | ref2sp
 	Block     string `json:"block"`                // aes128-cbc | aes192-cbc | aes256-cbc | tripledes-cbc | aes128-gcm
 	Transport string `json:"transport"`            // direct | oaep-mgf1p | oaep11 | pkcs1
@@ -295,6 +302,11 @@ func (c Case) inMGF1PDigest() bool {
 }
 
 func excluded(c Case) bool {
+	for _, st := range c.Steps {
+		if excluded(st) {
+			return true
+		}
+	}
 	on := func(n string) bool { return os.Getenv("VERIF_EXCLUDE_"+n) == "1" }
 	return (on("GCM_ENCRYPT") && c.inGCMEncrypt()) ||
 		(on("3DES") && c.in3DES()) ||
@@ -612,6 +624,17 @@ func classes(c Case) []string {
 }
 
 func wellFormed(c Case) bool {
+	if c.Dir == "seq" {
+		if len(c.Steps) < 1 || len(c.Steps) > 12 {
+			return false
+		}
+		for _, st := range c.Steps {
+			if (st.Dir != "self" && st.Dir != "ref2pkg") || !wellFormed(st) || st.inGCMEncrypt() || st.labelled() || (st.RefStdURI && st.Digest != "sha1" && st.Digest != "absent") {
+				return false // steps are restricted to judged, non-known-finding classes
+			}
+		}
+		return true
+	}
 	if blockURI(c.Block) == "" {
 		return false
 	}
@@ -700,6 +723,9 @@ func check(c Case) pbt.Result {
 	if !wellFormed(c) || excluded(c) {
 		return pbt.Result{Skip: true}
 	}
+	if c.Dir == "seq" {
+		return checkSeq(c)
+	}
 	xmlenc.RandReader = newStream(c.Seed, "xmlenc")
 	saml.RandReader = newStream(c.Seed, "saml")
 	plain := c.plaintext()
@@ -779,6 +805,111 @@ func check(c Case) pbt.Result {
 		return checkSP(c, ok)
 	}
 	return pbt.Result{Skip: true}
+}
+
+func clone(b []byte) []byte {
+	if b == nil {
+		return nil
+	}
+	return append([]byte{}, b...)
+}
+
+func scribble(b []byte) {
+	for i := range b {
+		b[i] ^= 0xA5
+	}
+}
+
+// scribbleElement overwrites every CipherValue / X509Certificate text of a tree the
+// package has finished with.
+func scribbleElement(el *etree.Element) {
+	for _, e := range el.FindElements(".//CipherValue") {
+		e.SetText("QUFBQUFBQUFBQUFBQUFBQQ==")
+	}
+}
+
+// checkSeq runs the steps in order on the long-lived package state and judges every
+// held result only after the last operation.
+func checkSeq(c Case) pbt.Result {
+	cl := []string{"dir:seq", fmt.Sprintf("seq:%d-operations", len(c.Steps))}
+	type heldT struct {
+		out, want []byte
+	}
+	var held []heldT
+	maxLen, laterShorter, mixed := -1, false, false
+	for i, st := range c.Steps {
+		cl = append(cl, "step:"+st.Dir, "step:block:"+st.Block, "step:transport:"+st.Transport)
+		if st.PlainLen <= maxLen {
+			laterShorter = true
+		}
+		if st.PlainLen > maxLen {
+			maxLen = st.PlainLen
+		}
+		if i > 0 && st.Block != c.Steps[i-1].Block {
+			mixed = true
+		}
+	}
+	if laterShorter {
+		cl = append(cl, "seq:later-not-longer")
+	}
+	if mixed {
+		cl = append(cl, "seq:mixed-ciphers")
+	}
+	res := pbt.Result{NonTrivial: true, Classes: cl}
+	bad := func(i int, f string, a ...any) pbt.Result {
+		return pbt.Result{Err: fmt.Sprintf("sequence of %d operations, operation %d (%s): ", len(c.Steps), i+1, c.Steps[i].describe()) + fmt.Sprintf(f, a...), NonTrivial: true, Classes: cl}
+	}
+	for i, st := range c.Steps {
+		xmlenc.RandReader = newStream(st.Seed, "xmlenc")
+		plain := st.plaintext()
+		want := clone(plain)
+		var el *etree.Element
+		var err error
+		if st.Dir == "self" {
+			enc := st
+			enc.Key, enc.Nonce = clone(st.Key), clone(st.Nonce)
+			buf := clone(plain)
+			el, err = enc.pkgEncrypt(buf)
+			if err != nil {
+				return bad(i, "%v", err)
+			}
+			scribble(buf)
+			scribble(enc.Key)
+			scribble(enc.Nonce)
+		} else {
+			o := st.refOptions()
+			o.Sibling = false
+			rel, rerr := refenc.EncryptElement(plain, certOf(st), o)
+			if rerr != nil {
+				panic("harness: reference encryption failed: " + rerr.Error())
+			}
+			if el, err = st.wire(rel); err != nil {
+				panic("harness: " + err.Error())
+			}
+		}
+		dec := st
+		dec.Key = clone(st.Key)
+		out, err := dec.pkgDecrypt(el)
+		if err != nil {
+			return bad(i, "package Decrypt failed: %v", err)
+		}
+		if !bytes.Equal(out, want) {
+			return bad(i, "package Decrypt returned %s, want %s", short(out), short(want))
+		}
+		// the call is over: everything the caller owns may be reused
+		scribble(dec.Key)
+		scribbleElement(el)
+		if !bytes.Equal(out, want) {
+			return bad(i, "the returned plaintext changed when the caller overwrote the key buffer / the element after the call: now %s, want %s", short(out), short(want))
+		}
+		held = append(held, heldT{out, want})
+	}
+	for i, h := range held {
+		if !bytes.Equal(h.out, h.want) {
+			return bad(i, "the plaintext returned by this operation was correct when returned but reads %s after the later operations of the sequence, want %s", short(h.out), short(h.want))
+		}
+	}
+	return res
 }
 
 func certOf(c Case) *x509.Certificate {
@@ -1005,8 +1136,25 @@ func genBytes(t *rapid.T, n int, label string) []byte {
 }
 
 func gen(t *rapid.T) Case {
+	dir := rapid.SampledFrom([]string{"self", "self", "self", "pkg2ref", "pkg2ref", "pkg2ref", "ref2pkg", "ref2pkg", "ref2pkg", "ref2pkg", "idp2ref", "ref2sp", "seq", "seq"}).Draw(t, "dir")
+	if dir != "seq" {
+		return genOne(t, dir, false)
+	}
+	c := Case{Dir: "seq"}
+	n := rapid.IntRange(2, 6).Draw(t, "steps")
+	for i := 0; i < n; i++ {
+		st := genOne(t, rapid.SampledFrom([]string{"self", "ref2pkg"}).Draw(t, "step-dir"), true)
+		c.Steps = append(c.Steps, st)
+	}
+	return c
+}
+
+// genOne draws one single-direction case; seqStep restricts it to what a step of a
+// sequence may be (judged classes only, moderate lengths so that later operations are
+// often not longer than earlier ones).
+func genOne(t *rapid.T, dir string, seqStep bool) Case {
 	var c Case
-	c.Dir = rapid.SampledFrom([]string{"self", "self", "self", "pkg2ref", "pkg2ref", "pkg2ref", "ref2pkg", "ref2pkg", "ref2pkg", "ref2pkg", "idp2ref", "ref2sp"}).Draw(t, "dir")
+	c.Dir = dir
 	c.Seed = rapid.SliceOfN(rapid.Byte(), 8, 8).Draw(t, "seed")
 	if c.Dir == "idp2ref" {
 		c.Block, c.Transport, c.Digest = "aes128-cbc", "oaep-mgf1p", "sha1" // what MakeAssertionEl hard-codes (classification only)
@@ -1016,6 +1164,9 @@ func gen(t *rapid.T) Case {
 		return c
 	}
 	c.Block = rapid.SampledFrom(blocks).Draw(t, "block")
+	if seqStep && c.Dir == "self" && c.Block == "aes128-gcm" {
+		c.Block = rapid.SampledFrom(blocks[:4]).Draw(t, "cbc-block") // GCM Encrypt: open known finding
+	}
 	s, _ := refenc.Spec(blockURI(c.Block))
 
 	// transport / digest / recipient
@@ -1100,9 +1251,12 @@ func gen(t *rapid.T) Case {
 			}
 			if c.Transport != "pkcs1" {
 				c.RefOAEPParams = rapid.SampledFrom([]string{"", "", "", "empty", "empty", "label"}).Draw(t, "oaep-params")
+				if seqStep && c.RefOAEPParams == "label" {
+					c.RefOAEPParams = "empty"
+				}
 			}
 			if c.Transport != "pkcs1" && c.Digest != "sha1" && c.Digest != "absent" {
-				c.RefStdURI = rapid.IntRange(0, 7).Draw(t, "std-uri") == 0
+				c.RefStdURI = !seqStep && rapid.IntRange(0, 7).Draw(t, "std-uri") == 0
 			}
 		}
 		if rapid.IntRange(0, 3).Draw(t, "wrap") == 0 {
@@ -1202,8 +1356,59 @@ func enumLengths(block string, rsaKeys []string) func(string, func(Case)) {
 	}
 }
 
+// detStep builds one deterministic self / ref2pkg step.
+func detStep(dir, block string, cb combo, n int, id string) Case {
+	s, _ := refenc.Spec(blockURI(block))
+	bs := blockSize(block)
+	seed := []byte(id)
+	c := Case{Dir: dir, Block: block, Transport: cb.transport, Digest: cb.digest,
+		PlainLen: n, PlainKind: "stream", PlainSeed: expand(seed, "p", 4), Seed: expand(seed, "s", 8)}
+	if cb.transport != "direct" {
+		c.RSAKey = "sp"
+	}
+	if cb.transport == "direct" || dir == "ref2pkg" {
+		c.Key = expand(seed, "key", s.KeyLen)
+	}
+	if dir == "ref2pkg" {
+		c.IV = expand(seed, "iv", s.IVLen)
+		c.Filler = expand(seed, "filler", bs-1)
+	} else {
+		c.NonceNil = n%2 == 0
+		if !c.NonceNil {
+			c.Nonce = expand(seed, "nonce", 12)
+		}
+	}
+	return c
+}
+
+// sequences: same cipher and mixed ciphers, plaintext lengths falling, rising, equal and
+// interleaved, package-encrypted and reference-encrypted steps alternating.
+func enumSequences(_ string, emit func(Case)) {
+	blockSets := [][]string{{"aes128-cbc"}, {"aes192-cbc"}, {"aes256-cbc"}, {"tripledes-cbc"}, {"aes128-gcm"},
+		{"aes128-cbc", "tripledes-cbc", "aes256-cbc", "aes192-cbc"}, {"aes256-cbc", "aes128-gcm", "tripledes-cbc"}}
+	patterns := [][]int{{40, 8}, {8, 40, 8}, {64, 64}, {0, 33, 16, 64, 1}, {100, 50, 25, 12, 6, 3}, {16, 15}, {4096, 10}, {1, 2, 3, 200, 4}}
+	combos := []combo{{"direct", ""}, {"oaep-mgf1p", "sha1"}, {"pkcs1", ""}}
+	for bi, bset := range blockSets {
+		for pi, pat := range patterns {
+			for ci, cb := range combos {
+				c := Case{Dir: "seq"}
+				for i, n := range pat {
+					block := bset[i%len(bset)]
+					dir := []string{"self", "ref2pkg"}[(i+bi+pi)%2]
+					if block == "aes128-gcm" {
+						dir = "ref2pkg"
+					}
+					c.Steps = append(c.Steps, detStep(dir, block, cb, n, fmt.Sprintf("seq/%d/%d/%d/%d", bi, pi, ci, i)))
+				}
+				emit(c)
+			}
+		}
+	}
+}
+
 func enums() []pbt.Enum[Case] {
 	var out []pbt.Enum[Case]
+	out = append(out, pbt.Enum[Case]{Name: "operation-sequences-results-compared-at-the-end", Each: enumSequences})
 	for _, b := range blocks {
 		out = append(out, pbt.Enum[Case]{Name: "lengths-0..4blocks+1:" + b, Each: enumLengths(b, []string{"sp"})})
 	}
@@ -1215,7 +1420,7 @@ func enums() []pbt.Enum[Case] {
 
 var prop = &pbt.Prop[Case]{
 	ID: "C10",
-	Rule: "cases: one direction {self, pkg->ref, ref->pkg, IdP->ref, ref->SP} x block cipher {AES-128/192/256-CBC, 3DES-CBC, AES-128-GCM} x key transport {direct, rsa-oaep-mgf1p with SHA-1/256/512/RIPEMD-160/constructor default, xmlenc11 rsa-oaep via OAEP_SHA256/OAEP_SHA512/SHA-1, PKCS#1 v1.5} x recipient RSA-1024/2048/3072/4096 x plaintext (length 0..4 blocks+1 exhaustively for every combination and direction, block multiples +-1 up to 80 blocks, random up to 4 KiB quick / 64 KiB thorough; zero, 0xFF, pseudo-random, XML and ASCII contents, padding-lookalike tails) x supplied (GCM: 12 octets; CBC: 0..5 blocks, in particular longer than a block) or library-generated nonce; reference side with arbitrary padding filler, optional embedded certificate, omitted ds:DigestMethod (= SHA-1), wrapped base64, pretty printing, other namespace prefixes / default namespace, the optional schema parts without key material (KeySize, Recipient, KeyName, CarriedKeyName, EncryptionProperties), nested/sibling EncryptedKey with or without RetrievalMethod. " +
+	Rule: "cases: one direction {self, pkg->ref, ref->pkg, IdP->ref, ref->SP}, or a sequence of 2-6 self / ref->pkg operations (same or mixed ciphers, later plaintexts shorter, equal or longer) whose results are ALL held and compared only after the last operation, with the caller-owned key / nonce / plaintext buffers and the element overwritten after every call; x block cipher {AES-128/192/256-CBC, 3DES-CBC, AES-128-GCM} x key transport {direct, rsa-oaep-mgf1p with SHA-1/256/512/RIPEMD-160/constructor default, xmlenc11 rsa-oaep via OAEP_SHA256/OAEP_SHA512/SHA-1, PKCS#1 v1.5} x recipient RSA-1024/2048/3072/4096 x plaintext (length 0..4 blocks+1 exhaustively for every combination and direction, block multiples +-1 up to 80 blocks, random up to 4 KiB quick / 64 KiB thorough; zero, 0xFF, pseudo-random, XML and ASCII contents, padding-lookalike tails) x supplied (GCM: 12 octets; CBC: 0..5 blocks, in particular longer than a block) or library-generated nonce; reference side with arbitrary padding filler, optional embedded certificate, omitted ds:DigestMethod (= SHA-1), wrapped base64, pretty printing, other namespace prefixes / default namespace, the optional schema parts without key material (KeySize, Recipient, KeyName, CarriedKeyName, EncryptionProperties), nested/sibling EncryptedKey with or without RetrievalMethod. " +
 		"non-trivial: every judged case (each is a distinct (direction, algorithm, transport, digest, key, length, contents) tuple). distinct: sha256 of the JSON case.",
 	Gen:   gen,
 	Check: check,
